@@ -171,6 +171,14 @@ class Ctx:
                     df.values[...] = 123.0
                 except ValueError:
                     pass            # (read-only buffer: nothing to scribble on)
+        # ... logs the objects it watches (str / repr / len / bool have no effect on what they show)
+        for o_ in (sim, sim.network, sim.event_queue, sim.scheduler):
+            str(o_), repr(o_)
+        len(sim.event_queue), bool(sim.event_queue), sim.event_queue.empty()
+        for s_ in sim.network.station_ids:
+            ev_ = sim.network.get_ev(s_)
+            if ev_ is not None:
+                repr(ev_), str(ev_), repr(ev_._battery) if hasattr(ev_, "_battery") else None
         # ... and the containers the network's read-only properties hand out (each access builds a new one: they are the caller's)
         nw = sim.network
         ids_ = nw.station_ids
